@@ -640,6 +640,10 @@ def hostile_inputs():
 
     for s in ["", " ", "hello world", "\x00", "\x1b[31mred", "a\x07b", "\r\n\t", "\x7f", "\x85 ", "\x01\x00"]:
         add("control", s)
+    # every C0 control character (and DEL / NEL) on its own inside benign text: the character-set rule is
+    # "control characters except TAB, LF, CR", so each code point is its own case
+    for c in list(range(0, 32)) + [0x7F, 0x85, 0xA0, 0x2028]:
+        add("control", f"note {chr(c)}for the team")
     for s in ["\ud800", "a\udfffb", "\udc00\ud800", '"\ud800"', '["\udfff"]']:
         add("surrogate", s)
     for n in (99_999, 100_000, 100_001, 250_000):
